@@ -150,6 +150,9 @@ pub struct SeamState {
     /// Legal mode may also return points that violate a row by at most 1e-7 (absolute): correct by
     /// the feasibility tolerance of a real backend (HiGHS default 1e-7), outside the library's 1e-8
     pub tolerance_answers: bool,
+    /// Fault mode: calls the plan does not fault get a (strictly) legal alternative witness instead
+    /// of the backend's own, so that faults meet caches a different correct backend would have left
+    pub legal_when_unfaulted: bool,
 }
 
 pub type Seam = Rc<RefCell<SeamState>>;
@@ -384,6 +387,7 @@ pub fn install(mode: Mode, plan: FaultPlan, rng: Prng) -> Seam {
         log: SeamLog::default(),
         faults_armed: true,
         tolerance_answers: false,
+        legal_when_unfaulted: false,
     }));
     let st = state.clone();
     verif_hooks::reset_lp_calls();
@@ -407,11 +411,21 @@ pub fn install(mode: Mode, plan: FaultPlan, rng: Prng) -> Seam {
                         }
                     }
                     Mode::Fault => {
+                        let mut faulted = false;
                         if s.faults_armed {
                             if let Some(kind) = s.plan.faults.get(&index).cloned() {
                                 returned = apply_fault(&kind, poly, &real_status);
                                 action = Some(kind.label());
                                 fault_family = Some(kind.family());
+                                faulted = true;
+                            }
+                        }
+                        if !faulted && s.legal_when_unfaulted && s.faults_armed {
+                            if let PolytopeStatus::Optimal(w) = &real_status {
+                                if let Some((alt, label)) = legal_alternative(&mut s.rng, poly, w, false) {
+                                    returned = PolytopeStatus::Optimal(alt);
+                                    action = Some(format!("legal:{label}"));
+                                }
                             }
                         }
                     }
